@@ -72,8 +72,11 @@ def model_line(c):
 
 
 def build(c):
+    import logging
     import pydrex.core as core
     import pydrex.minerals as M
+    import pydrex.logger as L
+    L.CONSOLE_LOGGER.setLevel(logging.ERROR)
     ms = []
     for m in c["minerals"]:
         ph = core.MineralPhase(m["phase"])
